@@ -35,6 +35,10 @@ func (p *Prover) Init(curve *math.Curve, msgLen int, thresholdPK []byte, parties
 		return err
 	}
 
+	if len(tpk.PublicKeys) < len(parties) {
+		return fmt.Errorf("threshold public key holds %d public keys but there are %d parties", len(tpk.PublicKeys), len(parties))
+	}
+
 	p.publicKeysOfParties = make(map[uint16]PK)
 	p.parties2EvalPoints = make(map[uint16]int64)
 
@@ -47,11 +51,19 @@ func (p *Prover) Init(curve *math.Curve, msgLen int, thresholdPK []byte, parties
 			return err
 		}
 
+		if len(pk.Y) != p.pp.n {
+			return fmt.Errorf("public key of party %d has %d components but %d were expected", party, len(pk.Y), p.pp.n)
+		}
+
 		p.publicKeysOfParties[party] = pk
 	}
 
 	if err := p.tpk.fromBytes(curve, tpk.TPK); err != nil {
 		return err
+	}
+
+	if len(p.tpk.Y) != p.pp.n {
+		return fmt.Errorf("threshold public key has %d components but %d were expected", len(p.tpk.Y), p.pp.n)
 	}
 
 	return nil
